@@ -5,6 +5,7 @@ import (
 	"math/big"
 	"sort"
 	"strings"
+	"sync"
 )
 
 // Sort is an SMT sort.
@@ -23,7 +24,11 @@ var (
 	arrs  = map[string]*Sort{}
 )
 
+var sortMu sync.Mutex
+
 func BV(w int) *Sort {
+	sortMu.Lock()
+	defer sortMu.Unlock()
 	if s, ok := bvs[w]; ok {
 		return s
 	}
@@ -34,6 +39,8 @@ func BV(w int) *Sort {
 
 func Arr(idx, elem *Sort) *Sort {
 	k := idx.String() + ">" + elem.String()
+	sortMu.Lock()
+	defer sortMu.Unlock()
 	if s, ok := arrs[k]; ok {
 		return s
 	}
@@ -66,20 +73,46 @@ type Term struct {
 
 var termCount int
 
-func mk(op string, s *Sort, args ...*Term) *Term {
+// hash-consing: structurally equal terms are pointer-equal.
+var (
+	hcMu    sync.Mutex
+	hcTable = map[string]*Term{}
+)
+
+func intern(t *Term) *Term {
+	var b strings.Builder
+	b.WriteString(t.Op)
+	b.WriteByte('|')
+	b.WriteString(t.Name)
+	b.WriteByte('|')
+	b.WriteString(t.S.String())
+	for _, a := range t.Args {
+		fmt.Fprintf(&b, "|%d", a.id)
+	}
+	k := b.String()
+	hcMu.Lock()
+	defer hcMu.Unlock()
+	if r, ok := hcTable[k]; ok {
+		return r
+	}
 	termCount++
-	return &Term{Op: op, Args: args, S: s, id: termCount}
+	t.id = termCount
+	hcTable[k] = t
+	return t
+}
+
+func mk(op string, s *Sort, args ...*Term) *Term {
+	return intern(&Term{Op: op, Args: args, S: s})
 }
 
 // Const makes a reference to a declared symbol.
 func Const(name string, s *Sort) *Term {
-	termCount++
-	return &Term{Op: "const", Name: name, S: s, id: termCount}
+	return intern(&Term{Op: "const", Name: name, S: s})
 }
 
 var (
-	True  = &Term{Op: "lit", Name: "true", S: BoolS}
-	False = &Term{Op: "lit", Name: "false", S: BoolS}
+	True  = intern(&Term{Op: "lit", Name: "true", S: BoolS})
+	False = intern(&Term{Op: "lit", Name: "false", S: BoolS})
 )
 
 func BVLit(v uint64, w int) *Term {
@@ -95,17 +128,17 @@ func BVLit(v uint64, w int) *Term {
 	} else {
 		name = fmt.Sprintf("#b%0*b", w, v)
 	}
-	return &Term{Op: "lit", Name: name, S: BV(w)}
+	return intern(&Term{Op: "lit", Name: name, S: BV(w)})
 }
 
 func IntLit(v int64) *Term {
 	if v < 0 {
-		return &Term{Op: "lit", Name: fmt.Sprintf("(- %d)", -v), S: IntS}
+		return intern(&Term{Op: "lit", Name: fmt.Sprintf("(- %d)", -v), S: IntS})
 	}
-	return &Term{Op: "lit", Name: fmt.Sprintf("%d", v), S: IntS}
+	return intern(&Term{Op: "lit", Name: fmt.Sprintf("%d", v), S: IntS})
 }
 
-func RealLit(s string) *Term { return &Term{Op: "lit", Name: s, S: RealS} }
+func RealLit(s string) *Term { return intern(&Term{Op: "lit", Name: s, S: RealS}) }
 
 func (t *Term) IsLit() bool { return t.Op == "lit" }
 
@@ -141,9 +174,6 @@ func (t *Term) String() string {
 		}
 		b.WriteByte(')')
 		s = b.String()
-	}
-	if len(s) < 4096 {
-		t.str = s
 	}
 	return s
 }
@@ -405,6 +435,10 @@ func Extract(hi, lo int, a *Term) *Term {
 	}
 	if lo == 0 && hi == a.S.W-1 {
 		return a
+	}
+	// extract of a zero extension back to the original width
+	if strings.HasPrefix(a.Op, "(_ zero_extend") && lo == 0 && hi == a.Args[0].S.W-1 {
+		return a.Args[0]
 	}
 	return mk(fmt.Sprintf("(_ extract %d %d)", hi, lo), BV(hi-lo+1), a)
 }
